@@ -792,7 +792,7 @@ def run(rep):
     mf = coq_bool(flags["mux_fixed"])
     tail = bytes([1, 0, 0xFF, 0xFF])
     configs = [(2, 3), (0, 1)] if tier == "quick" else [(2, 3), (0, 1), (4, 0), (1, 7), (0, 0)]
-    step = 2048
+    step = 256
     sweep_rust = []
     for (na, nc) in configs:
         for frm in range(0, 65536, step):
@@ -819,7 +819,7 @@ def run(rep):
                                 common.to_obsv(exp)))
             sweep_index.append((rc, prof, exp))
             if o["parts"]:
-                hs = list(range(frm, frm + step, 61)) + [frm + step - 1]
+                hs = list(range(frm, frm + step, 37)) + [frm + step - 1]
                 parts_cases.append((len(parts_cases), "CParts " + coq_list([str(h) for h in hs]),
                                     common.to_obsv([o["parts"][h - frm] for h in hs])))
     marks['sweep_impl_done'] = round(time.time() - t0, 1)
@@ -857,7 +857,7 @@ def run(rep):
     for e in inv["sites"]:
         by_class[e["class"]] = by_class.get(e["class"], 0) + e.get("n", 1)
     n_obl = po["obligations"] + 4
-    n_dis = po["discharged"] + (1 if inventory_ok else 0) + (0 if mm else 1) + (0 if mm2 else 1) + (0 if findings else 1)
+    n_dis = po["discharged"] + (1 if (inventory_ok and not translator_note) else 0) + (0 if mm else 1) + (0 if mm2 else 1) + (0 if findings else 1)
     samples = []
     for i in sample_ids:
         ci = case_index[i]
